@@ -18,6 +18,7 @@ fn main() {
         "cpc-record" => vh::fam_cpc::record(&args),
         "td-record" => vh::fam_td::record(&args),
         "td-replay" => vh::fam_td::replay(&args),
+        "hllv-record" => vh::fam_hllfmt::record(&args),
         "hllu-record" => vh::fam_hll::record_union(&args),
         c => {
             eprintln!("unknown command {c}");
